@@ -429,6 +429,11 @@ impl WireEncode for WireHostAddr {
                     Err("ScionHostAddr::Unknown bytes.len() must be non-zero".into())
                 } else if !bytes.len().is_multiple_of(4) {
                     Err("ScionHostAddr::Unknown bytes.len() must be a multiple of 4".into())
+                } else if WireHostAddrType::from(u8::from(self.addr_type())) != self.addr_type() {
+                    // The type/length nibble has 2 bits for the id, and three of its values denote
+                    // IPv4, IPv6 and service addresses: such an address would be decoded as
+                    // something else.
+                    Err("ScionHostAddr::Unknown id and length must not encode to another address type".into())
                 } else {
                     Ok(())
                 }
